@@ -4,6 +4,7 @@ import Driver.C01
 import Driver.C03
 import Driver.C06
 import Driver.C07
+import Driver.C09
 import Driver.C28
 import Driver.C29
 import Driver.C30
@@ -29,6 +30,7 @@ def step (line : String) : String :=
   | "C03" :: ts => stepC03 ts
   | "C06" :: ts => stepC06 ts
   | "C07" :: ts => stepC07 ts
+  | "C09" :: ts => stepC09 ts
   | "C12" :: ts => stepC12 ts
   | "C13" :: ts => stepC13 ts
   | "C14" :: ts => stepC14 ts
